@@ -6,20 +6,21 @@
 #include "xxhash.h"
 #include "zstd_verif_hooks.h"
 unsigned long long nondet_xxh_u64(void);
-/* statePtr->total_len doubles as the ghost byte counter ("bytes fed since the last reset") */
+/* the hash state is modelled entirely in the ghost (one hash state per harness): ghost.xxh_bytes = bytes fed since the
+ * last reset. The real state object is only checked for accessibility, never written (keeps big contexts out of frames). */
 
 XXH_errorcode XXH64_reset(XXH_NOESCAPE XXH64_state_t* statePtr, XXH64_hash_t seed)
 {
     (void)seed;
     __CPROVER_assert(__CPROVER_w_ok(statePtr, sizeof(*statePtr)), "XXH64_reset: state writable");
-    statePtr->total_len = 0;
+    zstd_verif_ghost.xxh_bytes = 0;
     return XXH_OK;
 }
 XXH_errorcode XXH64_update(XXH_NOESCAPE XXH64_state_t* statePtr, XXH_NOESCAPE const void* input, size_t length)
 {
     __CPROVER_assert(__CPROVER_w_ok(statePtr, sizeof(*statePtr)), "XXH64_update: state writable");
     __CPROVER_assert(length == 0 || __CPROVER_r_ok(input, length), "XXH64_update: input range readable");
-    statePtr->total_len += length;
+    zstd_verif_ghost.xxh_bytes += length;
     return XXH_OK;
 }
 XXH64_hash_t XXH64_digest(XXH_NOESCAPE const XXH64_state_t* statePtr)
